@@ -69,7 +69,8 @@ def corr_case(draw):
         rng = [min(Ts + [T_ref]) - draw(st.sampled_from([0.0, 48.15, 100.0])),
                max(Ts + [T_ref]) + draw(st.sampled_from([0.0, 500.0, 1201.85]))]
     return dict(kind='corr', Ts=Ts, Cps=Cps, T_ref=T_ref, H=H, S=S, range=rng,
-                numpy=draw(st.booleans()), units=draw(st.integers(0, len(UNIT_CHOICES) - 1)))
+                numpy=draw(st.booleans()), units=draw(st.integers(0, len(UNIT_CHOICES) - 1)),
+                mutate=draw(st.sampled_from([None, 'del-H', 'del-S', 'set-range', 'del-Cp-point', 'update'])))
 
 
 def sig6(a, b):
@@ -146,6 +147,31 @@ def check_corr(ctx, case):
     ctx.event('values:%s' % ('numpy.float64' if case['numpy'] else 'float'))
     ctx.event('zero-valued-datum' if zero else 'no-zero-datum')
     roundtrip(ctx, obj, units, 'generated', nd_exact=True)
+    # the same object after a change through its public methods is a correlation too: format it again
+    mut = case.get('mutate')
+    if mut:
+        try:
+            if mut == 'del-H':
+                obj.del_ND_H_ref()
+            elif mut == 'del-S':
+                obj.del_ND_S_ref()
+            elif mut == 'set-range':
+                lo = min(case['Ts'] + [case['T_ref']]) - 7.0
+                hi = max(case['Ts'] + [case['T_ref']]) + 11.0
+                obj.set_range((lo, hi))
+            elif mut == 'del-Cp-point':
+                if len(case['Ts']) < 2 or not (min(case['Ts'][1:]) <= case['T_ref'] <= max(case['Ts'][1:]) or case['range']):
+                    return
+                obj.del_ND_Cp(conv(case['Ts'][0]) if case['Ts'][0] in obj.ND_Cp_data else list(obj.ND_Cp_data)[0])
+            else:
+                other = m['Group'](7.5 if H is None else None, None, {}, conv(case['T_ref']), None)
+                obj.update(other)
+        except Exception:
+            ctx.event('mutation-not-applicable')
+            return
+        ctx.event('formatted-again-after:%s' % mut)
+        ctx.count()
+        roundtrip(ctx, obj, units, 'generated, formatted again after %s' % mut, nd_exact=True)
 
 
 def enum_shipped(tier):
